@@ -82,8 +82,8 @@ add_source_file(const string &filename) {
 void InterrogateBuilder::
 read_command_file(istream &in) {
   string line;
-  std::getline(in, line);
-  while (!in.fail() && !in.eof()) {
+  // (A last line that does not end in a newline is a line too.)
+  while (std::getline(in, line)) {
     // Strip out the comment.
     size_t hash = line.find('#');
     if (hash != string::npos) {
@@ -118,7 +118,6 @@ read_command_file(istream &in) {
 
       do_command(command, params);
     }
-    std::getline(in, line);
   }
 }
 
